@@ -285,6 +285,19 @@ ADDENDA7 = {
 }
 
 
+ADDENDA8 = {
+    "C01": "Round 8: string values keep their length under -s 80 (capacity of every string the expression passes through).",
+    "C03": "Round 8: hex DATA items around &H8000; FOR variables read before their loop under pre-initialisation.",
+    "C04": "Round 8: program-facing runtime procedures never assign an operand parameter (by-reference calls); device string operands keep their length under -s.",
+    "C07": "Round 8: an item before every PRINT separator.",
+    "C10": "Round 8: names that occur only in a PRINT item starting with a sign or NOT.",
+    "C11": "Round 8: filtering with dependencies on changes labels only; no string declaration left at 32 under -s 40.",
+    "C15": "Round 8: the command line on listings with non-ASCII text (fresh UTF-8 interpreter).",
+    "C18": "Round 8: HRS wider than 320; decoder history with a smaller second picture.",
+    "C19": "Round 8: corrupted CM3 control bytes in a complete compressed picture.",
+}
+
+
 def build():
     for pid, add in ADDENDA4.items():
         if add not in CHECKS[pid]["text"]:
@@ -299,6 +312,9 @@ def build():
         if add not in CHECKS[pid]["text"]:
             CHECKS[pid]["text"] = CHECKS[pid]["text"].rstrip() + " " + add
     for pid, add in ADDENDA7.items():
+        if add not in CHECKS[pid]["text"]:
+            CHECKS[pid]["text"] = CHECKS[pid]["text"].rstrip() + " " + add
+    for pid, add in ADDENDA8.items():
         if add not in CHECKS[pid]["text"]:
             CHECKS[pid]["text"] = CHECKS[pid]["text"].rstrip() + " " + add
     checks = []
